@@ -9,7 +9,7 @@
    [env_nonneg]) are defined in Codec/TotalModel.v.                                          *)
 From Coq Require Import ZArith List Ascii Bool.
 From Cspuz Require Import Lib.PyErr Codec.Comb Codec.CombWf Codec.Yajilin Codec.Puzzles
-  Codec.TotalModel Codec.TotalLeaf Codec.TotalRooms Codec.Total Gen.Codecs.
+  Codec.TotalModel Codec.TotalLeaf Codec.TotalRooms Codec.Total Codec.TotalDims Codec.TotalCodecs Gen.Codecs.
 Import ListNotations.
 Local Open Scope Z_scope.
 
@@ -65,12 +65,23 @@ Theorem codecs_total : forall url,
   safe (run_de no_custom deserialize_heyawake_w url) /\
   safe (run_de no_custom deserialize_lits_w url) /\
   safe (run_de no_custom deserialize_norinori_w url).
-Proof.
-  intros url. unfold run_de.
-  repeat split; apply url_total_lemma; try reflexivity;
-    solve [right; reflexivity | left; exact yajilin_custom_total].
-Qed.
+Proof. exact codecs_total_lemma. Qed.
 Print Assumptions codecs_total.
+
+(* ... and whatever they return has the sizes written in the URL (width second, height third field):
+   a grid of exactly h rows of w cells, or (h, w, rooms) with every cell of the board in one room *)
+Theorem codecs_dims : forall url name wd hd body, url_match url = Some (name, wd, hd, body) ->
+  returns_grid (run_de no_custom deserialize_nurikabe_w url) wd hd /\
+  returns_grid (run_de no_custom deserialize_masyu_w url) wd hd /\
+  returns_grid (run_de no_custom deserialize_slitherlink_w url) wd hd /\
+  returns_grid (run_de no_custom deserialize_sudoku_w url) wd hd /\
+  returns_grid (run_de no_custom deserialize_nurimisaki_w url) wd hd /\
+  returns_grid (run_de yajilin_custom deserialize_yajilin_w url) wd hd /\
+  returns_sized_valued_rooms (run_de no_custom deserialize_heyawake_w url) wd hd /\
+  returns_sized_rooms (run_de no_custom deserialize_lits_w url) wd hd /\
+  returns_sized_rooms (run_de no_custom deserialize_norinori_w url) wd hd.
+Proof. exact codecs_dims_lemma. Qed.
+Print Assumptions codecs_dims.
 
 (* a decoded Grid has exactly the board's rows and columns *)
 Theorem de_dims_grid : forall e c1 s k p, 0 <= height e -> 0 <= width e ->
@@ -87,3 +98,44 @@ Theorem url_de_dims : forall cu c1 al af rs url name wd hd body v,
                 v = (if rs then VTup [VInt h; VInt w; p] else p).
 Proof. exact url_dims_lemma. Qed.
 Print Assumptions url_de_dims.
+
+(* a decoded Rooms value: every cell of the declared board occurs in exactly one room
+   ([cells_of h w] lists each cell of the board once, Codec/RoomsGrid.v cells_of_in) *)
+Theorem de_dims_rooms : forall e skip allow s k l, de e (Rooms skip allow) s = Ok (Some (k, l)) ->
+  exists p, l = [p] /\ rooms_shape (height e) (width e) p.
+Proof. exact rooms_dims_lemma. Qed.
+Print Assumptions de_dims_rooms.
+
+Theorem url_de_dims_rooms : forall cu skip allow al af rs url name wd hd body v,
+  url_match url = Some (name, wd, hd, body) ->
+  deserialize_url_cu cu (Rooms skip allow) url al af rs = Ok (Some v) ->
+  exists w h p, py_int wd 10 = Ok w /\ py_int hd 10 = Ok h /\ rooms_shape h w p /\
+                v = (if rs then VTup [VInt h; VInt w; p] else p).
+Proof. exact url_rooms_dims_lemma. Qed.
+Print Assumptions url_de_dims_rooms.
+
+Theorem url_de_dims_valued_rooms : forall cu vc skip allow al af rs url name wd hd body v,
+  url_match url = Some (name, wd, hd, body) ->
+  deserialize_url_cu cu (ValuedRooms vc skip allow) url al af rs = Ok (Some v) ->
+  exists w h rooms values, py_int wd 10 = Ok w /\ py_int hd 10 = Ok h /\ rooms_shape h w rooms /\
+                v = (if rs then VTup [VInt h; VInt w; VTup [rooms; values]] else VTup [rooms; values]).
+Proof. exact url_vrooms_dims_lemma. Qed.
+Print Assumptions url_de_dims_valued_rooms.
+
+(* re-encodability.  Full statement (NOT proved here; judged on the real code by the fuzz search
+   of harness/pC17.py): a value returned for a well-formed term is serialized again and its
+   canonical text decodes to the same value. *)
+Definition de_reencodable_statement : Prop :=
+  forall c h w s p, wf c = true -> tupl_single c = true -> dec_ok c = true -> single c = true -> 0 <= h -> 0 <= w ->
+    deserialize_problem c s h w = Ok (Some p) ->
+    exists t, serialize_problem c p h w = Ok t /\ deserialize_problem c t h w = Ok (Some p).
+
+(* proved part: the combinator whose decoder used to return unencodable values.  Whatever
+   HexInt.deserialize returns lies in 0..4095, HexInt.serialize accepts it, and the canonical
+   text decodes to it again whatever follows *)
+Theorem de_reencodable_partial_hexint : forall s k l, hexint_de s = Ok (Some (k, l)) ->
+  exists z t, l = [VInt z] /\ 0 <= z <= 4095 /\
+    hexint_ser (VList [VInt z]) 0 = Ok (Some (1%nat, t)) /\
+    forall rest, hexint_de (t ++ rest) = Ok (Some (length t, [VInt z])).
+Proof. exact hexint_reencodable_lemma. Qed.
+Print Assumptions de_reencodable_partial_hexint.
